@@ -388,7 +388,7 @@ theorem at_readOnly (k : SyntaxKind) : ReadOnly (at' k) := nthAt_readOnly 0 k
 theorem containsG_readOnly (ts : TokenSet) (k : SyntaxKind) : ReadOnly (ts.containsG k) := by
   intro s r h
   unfold TokenSet.containsG at h
-  split at h <;> simp at h
+  simp only [G.pure_ok] at h
   subst h; rfl
 
 theorem atTs_readOnly (ts : TokenSet) : ReadOnly (atTs ts) := by
